@@ -19,15 +19,17 @@ func init() {
 		Explanation: "Decides on the current source: R1 the connection loop function defers, before any other call, a closure that calls recover() itself, does not re-panic and closes the transport on every path, and the handler dispatch is a plain call inside that same function (a handler panic unwinds into this defer and no further); " +
 			"R2 the connection loop is only ever started with go (handlers never run on the accept goroutine or a caller's goroutine); " +
 			"R3 in (*Server).Serve no path from the temporary-accept-error edge or from a failed connection constructor reaches a return before the next Accept, and the accept loop makes no plain call that reads messages or invokes handlers; " +
-			"R4 on the read-error edge the loop offers the error to ErrorReporter.Error guarded only by the EOF / UnexpectedEOF exclusions and the interface test, then leaves the loop. " +
+			"R4 on the read-error edge the loop offers the error to ErrorReporter.Error guarded only by the EOF / UnexpectedEOF exclusions and the interface test, then leaves the loop; " +
+			"R5 a lock that may be held while a handler runs is released by a deferred unlock (so a recovered handler panic cannot leave the shared mux locked), and every pooled read buffer is released exactly once by a defer of the acquiring function (so an error path cannot make two connections share a buffer). " +
 			"Not decided: fault placements as executions, behaviour of net.Listener implementations, panics outside the handler goroutine (e.g. in goroutines a handler starts).",
 		Rules: map[string]string{
 			"R1": "defer(recover + close transport) dominates every other call of the connection loop; dispatch is in the same function",
 			"R2": "connection loop never called or deferred synchronously",
 			"R3": "accept loop: temporary error edge and constructor failure edge return to Accept; no connection I/O on the accept goroutine",
 			"R4": "read-error edge: ErrorReporter.Error offered unless EOF/UnexpectedEOF, then the loop exits",
+			"R5": "state shared between connections survives a fault: locks held across handlers are released by defer; pooled read buffers are released exactly once",
 		},
-		MinInstances: map[string]int{"R1": 2, "R2": 1, "R3": 2, "R4": 2},
+		MinInstances: map[string]int{"R1": 2, "R2": 1, "R3": 2, "R4": 2, "R5": 2},
 		Assumptions:  []string{"recover() in a deferred closure of the goroutine's function stops any panic raised below it (Go language semantics)", "net.Conn.Close closes the transport"},
 	})
 }
@@ -182,6 +184,112 @@ func runC15(c *Ctx) {
 
 	// ---- R4 ----
 	c.c15Report(loopFn)
+
+	// ---- R5: a handler panic must not leave shared state locked / shared buffers double-released ----
+	var roots []*ssa.Function
+	for _, ci := range flow.CallInstrs(loopFn) {
+		if call, ok := ci.(*ssa.Call); ok {
+			if g := flow.StaticCallee(call); g != nil && c.reachesHandler(g, false, memo) {
+				roots = append(roots, g)
+			}
+		}
+	}
+	closure := c.reach(roots, false, true, true)
+	nSites := 0
+	for _, f := range c.P.LibraryFuncs() {
+		if !closure[f] {
+			continue
+		}
+		ops := lockOps(f)
+		for _, ci := range flow.CallInstrs(f) {
+			if _, isGo := ci.(*ssa.Go); isGo {
+				continue
+			}
+			leads := isHandlerInvocation(ci)
+			if g := flow.StaticCallee(ci); g != nil && closure[g] && c.reachesHandler(g, false, memo) {
+				leads = true
+			}
+			if !leads {
+				continue
+			}
+			for _, h := range mayHeldAt(f, ci) {
+				nSites++
+				key := fmt.Sprintf("%s:%s-released-by-defer@%s", fname(f), h.path, calleeLabel(ci))
+				deferred := false
+				for _, o := range ops {
+					if !o.acquire && o.deferred && o.path == h.path && o.exclusive == h.exclusive && flow.Dominates(o.in, ci) {
+						deferred = true
+					}
+				}
+				r.Check(deferred, "R5", key, c.pos(ci), "the lock held across the handler call is released by a deferred unlock (a handler panic unwinds through it)",
+					"lock "+h.path+" is held while a handler runs but is released by a plain call: a handler panic (recovered per connection) leaves it locked, and later registrations / dispatches on every other connection block forever")
+			}
+		}
+	}
+	if nSites == 0 {
+		r.Ok("R5", "DispatchClosure:no-lock-across-handler", "-", "no lock is held across a handler invocation on the dispatch chain")
+	}
+	// pooled read buffers: one deferred release per acquisition, in the acquiring function
+	rp := c.readPath()
+	acq, rel := map[*ssa.Function]int{}, map[*ssa.Function]int{}
+	relDeferred := true
+	var relAt ssa.Instruction
+	isGetter := func(g *ssa.Function) bool {
+		if g == nil || !c.P.IsLibrary(g) {
+			return false
+		}
+		for _, ci := range flow.CallInstrs(g) {
+			if flow.IsCallTo(ci, "sync", "Pool", "Get") {
+				return true
+			}
+		}
+		return false
+	}
+	isPutter := func(g *ssa.Function) bool {
+		if g == nil || !c.P.IsLibrary(g) {
+			return false
+		}
+		for _, ci := range flow.CallInstrs(g) {
+			if flow.IsCallTo(ci, "sync", "Pool", "Put") {
+				return true
+			}
+		}
+		return false
+	}
+	for f := range rp {
+		for _, ci := range flow.CallInstrs(f) {
+			g := flow.StaticCallee(ci)
+			if isGetter(g) && !isPutter(f) {
+				acq[f]++
+			}
+			if isPutter(g) && !isPutter(f) {
+				rel[f]++
+				relAt = ci
+				if _, isD := ci.(*ssa.Defer); !isD {
+					relDeferred = false
+				}
+			}
+		}
+	}
+	okPool := relDeferred
+	for f, n := range rel {
+		if acq[f] != n {
+			okPool = false
+		}
+	}
+	for f, n := range acq {
+		if rel[f] != n {
+			okPool = false
+		}
+	}
+	if len(acq) > 0 {
+		at := "-"
+		if relAt != nil {
+			at = c.pos(relAt)
+		}
+		r.Check(okPool, "R5", "ReadPath:pooled-buffer-released-once", at, "every pooled read buffer is released exactly once, by a defer in the function that acquired it",
+			"a pooled read buffer can be released more than once (or outside the acquiring function's defer), e.g. on an error path: two connections then share one buffer and a decode error on one connection corrupts the framing of another")
+	}
 }
 
 func (c *Ctx) c15Accept(serve, loopFn *ssa.Function, memo map[*ssa.Function]int) {
